@@ -72,6 +72,53 @@ class Model:
         for c in self.classes.values():
             c.bases = [self._resolve_base(c, b) for b in c.node.bases]
         self._mro_cache: dict[str, list] = {}
+        self._owner_map = None
+        self._inliners = {}
+        from . import summary as _summary
+        _summary.set_inline_hook(self.inlined)
+
+    # -- helper inlining (pv/inline.py) --------------------------------------
+    def _owners(self):
+        if self._owner_map is None:
+            om = {}
+            for key, (m, fn) in self.functions.items():
+                for n in ast.walk(fn):
+                    if isinstance(n, ast.FunctionDef):
+                        om.setdefault(id(n), (m, None))
+            for c in self.classes.values():
+                for mem in c.members.values():
+                    if mem.kind == "func":
+                        for n in ast.walk(mem.node):
+                            if isinstance(n, ast.FunctionDef):
+                                om[id(n)] = (c.module, c)
+            self._owner_map = om
+        return self._owner_map
+
+    def inliner_for(self, fn):
+        """the Inliner for the module/class a function lives in (None if the
+        function is not part of the package source, e.g. synthesised)"""
+        own = self._owners().get(id(fn))
+        if own is None:
+            return None
+        m, c = own
+        key = (m.name, c.key if c is not None else None)
+        if key not in self._inliners:
+            from .inline import Inliner
+            mf = {k.split(":", 1)[1]: f for k, (mm, f) in self.functions.items()
+                  if mm is m}
+            cm = {}
+            if c is not None:
+                for k in reversed([x for x in self.mro(c)
+                                   if not isinstance(x, str)]):
+                    for name, mem in k.members.items():
+                        if mem.kind == "func":
+                            cm[name] = mem.node
+            self._inliners[key] = Inliner(mf, cm)
+        return self._inliners[key]
+
+    def inlined(self, fn):
+        inl = self.inliner_for(fn)
+        return fn if inl is None else inl.apply(fn)
 
     # -- scanning ----------------------------------------------------------
     def _scan_module(self, m: Module):
@@ -390,62 +437,80 @@ class NodeTable:
                     flags |= getattr(re, n.attr)
         rx = re.compile(call.args[0].value, flags)
         _, fn = model.func("pymbolic.primitives:_augment_expression_dataclass")
-        # find: snake = RE.sub(<sep>, cls.__name__).lower(); default = f"map_{snake}"
-        sep = None
-        lower = False
-        template = None
-        snake_var = None
-        for n in ast.walk(fn):
-            if isinstance(n, ast.Assign) and len(n.targets) == 1 \
-                    and isinstance(n.targets[0], ast.Name):
-                v = n.value
-                src = ast.unparse(v)
-                if "_CAMEL_TO_SNAKE_RE.sub" in src:
-                    snake_var = n.targets[0].id
-                    lower = src.endswith(".lower()")
-                    for c in ast.walk(v):
-                        if isinstance(c, ast.Call) and ast.unparse(c.func) == \
-                                "_CAMEL_TO_SNAKE_RE.sub":
-                            if isinstance(c.args[0], ast.Constant):
-                                sep = c.args[0].value
-                            # recorded, judged by C04 (rule N2): module-
-                            # level classes have __qualname__ == __name__, so
-                            # the rest of the model is unaffected
-                            a1 = c.args[1]
-                            self.derivation_source = ast.unparse(a1)
-                            self.derivation_line = c.lineno
-                            self.derivation_from_name = (
-                                isinstance(a1, ast.Attribute)
-                                and a1.attr == "__name__"
-                                and isinstance(a1.value, ast.Name)
-                                and a1.value.id == fn.args.args[0].arg)
-                elif isinstance(v, ast.JoinedStr) and snake_var and any(
-                        isinstance(p, ast.FormattedValue)
-                        and isinstance(p.value, ast.Name)
-                        and p.value.id == snake_var for p in v.values):
-                    template = v
-        if sep is None or template is None:
+        # the value stored into cls.mapper_method, as assembled text:
+        #   [intern(]  <prefix> + RE.sub(<sep>, cls.__name__)[.lower()] + <suffix>
+        from .rules import text_parts
+        from .summary import summarize
+        cls_p = ("param", fn.args.args[0].arg)
+        found = None
+        guarded = True
+        n_writes = 0
+        for ps in summarize(fn, plain=True):
+            for e in ps.events:
+                if not (e.kind == "attrwrite" and e.name == "mapper_method"):
+                    continue
+                n_writes += 1
+                v = e.value
+                if isinstance(v, tuple) and v[0] == "call" and \
+                        v[1].split(".")[-1] == "intern" and len(v[2]) == 1:
+                    v = v[2][0]
+                found = v
+                # written only when the class does not set it itself
+                notin = False
+                for _, pol, c in ps.conds:
+                    while isinstance(c, tuple) and c[0] == "unop" and \
+                            c[1] == "Not":
+                        c, pol = c[2], not pol
+                    if isinstance(c, tuple) and c[0] == "compare" and \
+                            c[2] == ("const", "mapper_method") and \
+                            c[3] == (("attr", cls_p, "__dict__"),):
+                        if (c[1] == ("In",) and not pol) or \
+                                (c[1] == ("NotIn",) and pol):
+                            notin = True
+                guarded = guarded and notin
+        if found is None:
+            raise AnalysisError("mapper_method derivation: no assignment to "
+                                "cls.mapper_method found")
+        parts = text_parts(found)
+        core = [p_ for p_ in (parts or []) if p_[0] != "const"]
+        if parts is None or len(core) != 1:
             raise AnalysisError("mapper_method derivation idiom not recognised")
-        self._sep, self._lower, self._snake_var = sep, lower, snake_var
-        # replaces inherited value?
-        src = ast.unparse(fn)
-        self.replaces_inherited = "'mapper_method' in cls.__dict__" in src
+        i = parts.index(core[0])
+        prefix = "".join(p_[1] for p_ in parts[:i])
+        suffix = "".join(p_[1] for p_ in parts[i + 1:])
+        c = core[0]
+        lower = False
+        if c[0] == "call" and len(c) >= 5 and c[4][0] == "recv" and \
+                c[4][2] == "lower" and not c[2]:
+            lower = True
+            c = c[4][1]
+        if not (c[0] == "call" and c[1] == "_CAMEL_TO_SNAKE_RE.sub"
+                and len(c[2]) == 2 and c[2][0][0] == "const"):
+            raise AnalysisError("mapper_method derivation idiom not recognised")
+        sep = c[2][0][1]
+        srcv = c[2][1]
+        # recorded, judged by C04 (rule N2): module-level classes have
+        # __qualname__ == __name__, so the rest of the model is unaffected
+        self.derivation_from_name = srcv == ("attr", cls_p, "__name__")
+        self.derivation_source = (f"cls.{srcv[2]}" if srcv[0] == "attr"
+                                  and srcv[1] == cls_p else str(srcv))
+        self.derivation_line = next(
+            (n.lineno for n in ast.walk(fn) if isinstance(n, ast.Call)
+             and ast.unparse(n.func) == "_CAMEL_TO_SNAKE_RE.sub"), fn.lineno)
+        self._sep, self._lower = sep, lower
+        self._prefix, self._suffix = prefix, suffix
+        self.replaces_inherited = guarded
         if not self.replaces_inherited:
             raise AnalysisError(
-                "cannot find the \"'mapper_method' in cls.__dict__\" test")
-        return rx, template
+                "cls.mapper_method is assigned on a path that has not "
+                "established \"'mapper_method' not in cls.__dict__\"")
+        return rx, None
 
     def derive_mapper_method(self, clsname: str) -> str:
         s = self._camel_re.sub(self._sep, clsname)
         if self._lower:
             s = s.lower()
-        out = ""
-        for p in self._template.values:
-            if isinstance(p, ast.Constant):
-                out += p.value
-            else:
-                out += s
-        return out
+        return self._prefix + s + self._suffix
 
     # ---------------------------------------------------------------------
     def _decoration(self, c: ClassInfo):
